@@ -22,6 +22,15 @@ fn check_buf(rep: &mut Report, buf: &[u8], bodycls: &str) {
         MsgCall::Err => "Err",
         MsgCall::Panic(_) => "Panic",
     };
+    rep.sample(5, || {
+        let mut o = J::obj();
+        o.set("type_bits", J::i(t as u64));
+        o.set("body", J::s(bodycls));
+        o.set("bytes", J::i(buf.len() as u64));
+        o.set("reference", J::s(want.unwrap_or("Err (unsupported type)")));
+        o.set("observed", J::s(outcome));
+        o
+    });
     rep.class(format!("t{}|{}|{}", t, bodycls, outcome));
     rep.count(&format!("type{}:{}", t, outcome));
     match c {
